@@ -352,6 +352,39 @@ theorem mutable_run_refines {C : Cfg σ κ ν} {cmp : κ → κ → Ordering} {P
     subst hseen
     exact mutable_run_refines hc hf os m.revert m' _ true (MInv.revert h hal) hrest hr
 
+/-- the invariant holds for the final state of a safe run (so its tree satisfies `P`) -/
+theorem mutable_run_inv {C : Cfg σ κ ν} {cmp : κ → κ → Ordering} {P : Tree κ ν → Prop} (hc : TotalPreorder cmp)
+    (hf : FlushRefines C cmp P) :
+    ∀ (ops : List (MOp κ ν)) (m m' : MutMap κ ν) (d : Dict κ ν) (seen : Bool),
+      MInv cmp P m d seen → SafeRun C cmp m seen ops → m.run C cmp ops = .ok m' →
+      ∃ seen', MInv cmp P m' (ops.foldl (Dict.step cmp) d) seen'
+  | [], m, m', d, seen, h, _, hr => by
+    simp only [MutMap.run, Except.ok.injEq] at hr
+    rw [← hr]; exact ⟨seen, h⟩
+  | .put k v :: os, m, m', d, seen, h, hsafe, hr => by
+    simp only [MutMap.run, MutMap.step] at hr
+    simp only [SafeRun] at hsafe
+    cases hp : m.put C cmp k v with
+    | error e => rw [hp] at hr; cases hr
+    | ok m1 =>
+      rw [hp] at hr hsafe
+      simp only at hr hsafe
+      exact mutable_run_inv hc hf os m1 m' _ seen (MInv.put hc hf h k v hp) hsafe hr
+  | .del k :: os, m, m', d, seen, h, hsafe, hr => by
+    simp only [MutMap.run, MutMap.step] at hr
+    simp only [SafeRun] at hsafe
+    exact mutable_run_inv hc hf os (m.delete k) m' _ seen (MInv.delete hc h k) hsafe hr
+  | .checkpoint :: os, m, m', d, seen, h, hsafe, hr => by
+    simp only [MutMap.run, MutMap.step] at hr
+    simp only [SafeRun] at hsafe
+    exact mutable_run_inv hc hf os m.checkpoint m' _ true (MInv.checkpoint h hsafe.1) hsafe.2 hr
+  | .revert :: os, m, m', d, seen, h, hsafe, hr => by
+    simp only [MutMap.run, MutMap.step] at hr
+    simp only [SafeRun] at hsafe
+    obtain ⟨hseen, hal, hrest⟩ := hsafe
+    subst hseen
+    exact mutable_run_inv hc hf os m.revert m' _ true (MInv.revert h hal) hrest hr
+
 /-- executable form of `SafeRun` -/
 def safeRunB (C : Cfg σ κ ν) (cmp : κ → κ → Ordering) : MutMap κ ν → Bool → List (MOp κ ν) → Bool
   | _, _, [] => true
